@@ -6,6 +6,7 @@ import (
 	"os"
 	"time"
 
+	"github.com/meshplus/bitxhub-model/constant"
 	"github.com/meshplus/bitxhub-model/pb"
 	"github.com/meshplus/bitxhub/verif/harness"
 )
@@ -25,14 +26,26 @@ func smoke(args []string) int {
 	n := harness.Nonces{}
 	a0 := harness.AdminKey(0)
 	u := harness.DetKey("user-1")
-	tx := harness.TransferTx(a0, n.Next(a0.Addr), 1, u.Addr, "1000000000000")
+	tx := harness.TransferTx(a0, n.Next(a0.Addr), 1, u.Addr, "15000000000")
 	res, err := r.ExecBlock([]pb.Transaction{tx}, 100, nil)
 	if err != nil {
 		fmt.Println("exec:", err)
 		return 1
 	}
 	fmt.Println("block", res.Height, res.Block.BlockHash.String(), "receipt", res.Receipts[0].Status, string(res.Receipts[0].Ret), time.Since(t0))
-	fmt.Println("state keys", len(r.DumpState()), "chain keys", len(r.DumpChain()))
+	st := constant.StoreContractAddr.Address()
+	t1 := harness.BVMTx(u, n.Next(u.Addr), 2, st, "Set", pb.String("k"), pb.String("v1"))
+	t2 := harness.BVMTx(u, n.Next(u.Addr), 3, st, "Set", pb.String("k"), pb.String("v2"))
+	res, err = r.ExecBlock([]pb.Transaction{t1, t2}, 200, nil)
+	if err != nil {
+		fmt.Println("exec:", err)
+		return 1
+	}
+	for _, rc := range res.Receipts {
+		fmt.Println(" receipt", rc.Status, string(rc.Ret))
+	}
+	q := r.Query(st, "Get", pb.String("k"))
+	fmt.Println("Store.Get(k) =", q.Status, string(q.Ret))
 	r.Close()
 	return 0
 }
